@@ -4,6 +4,7 @@ import Model.Life
 import Model.Comm
 import Model.Path
 import Model.Spawn
+import Model.Builder
 /-!
   `modeldriver`: one request per input line, one answer per output line.
   The harness runs the implementation on the same requests and diffs the answers.
@@ -428,6 +429,83 @@ def handle (args : List String) : String :=
 
 end SpawnIO
 
+namespace BuilderIO
+open Builder
+
+def hexL (tok : String) : Option (List Nat) := if tok = "" then some [] else Hex.decodeW 2 tok
+
+def kvPair (t : String) : Option (B × B) :=
+  match t.splitOn ":" with
+  | [a, b] => do some ((← hexL a), (← hexL b))
+  | _ => none
+
+def kvList (t : String) : Option (List (B × B)) :=
+  if t = "" || t = "-" then some [] else allSome ((t.splitOn ",").map kvPair)
+
+def rdOf (t : String) : Option Rd :=
+  match t with
+  | "N" => some .none | "P" => some .pipe | "M" => some .merge | "F" => some .file | "0" => some .null
+  | _ => none
+
+def showRd : Rd → String
+  | .none => "N" | .pipe => "P" | .merge => "M" | .file => "F" | .null => "0"
+
+/-- one spec token = a list of model ops (`clone`/`clonekeep` are identity on a value) -/
+def parseOp (t : String) : Option (List Op) :=
+  match t.splitOn ":" with
+  | ["arg", a] => do some [.arg (← hexL a)]
+  | ["args", l] => do some [.args (← (if l = "" then some [] else allSome ((l.splitOn ",").map hexL)))]
+  | ["env", a, b] => do some [.env (← hexL a) (← hexL b)]
+  | "ext" :: _ => do some [.envExtend (← kvList ((t.drop 4).toString))]
+  | ["rm", a] => do some [.envRemove (← hexL a)]
+  | ["clear"] => some [.envClear]
+  | ["cwd", a] => do some [.cwd (← hexL a)]
+  | ["in", r] => do some [.stdin (← rdOf r)]
+  | ["data", d] => do some [.stdinData (← hexL d)]
+  | ["out", r] => do some [.stdout (← rdOf r)]
+  | ["err", r] => do some [.stderr (← rdOf r)]
+  | ["det"] => some [.detached]
+  | ["clone"] => some []
+  | ["clonekeep"] => some []
+  | _ => none
+
+def termOf (t : String) : Option Term :=
+  match t with
+  | "term:popen" => some .popen | "term:join" => some .join | "term:stream_stdout" => some .streamStdout
+  | "term:stream_stderr" => some .streamStderr | "term:stream_stdin" => some .streamStdin
+  | "term:capture" => some .capture | "term:communicate" => some .communicate
+  | _ => none
+
+def startOf (t : String) : Option Exec :=
+  if t.startsWith "cmd=sh:" then (hexL ((t.drop 7).toString)).map shell
+  else if t.startsWith "cmd=" then (hexL ((t.drop 4).toString)).map cmd
+  else none
+
+def hexB (b : B) : String := if b.isEmpty then "" else Hex.encodeW 2 b
+
+/-- `builder <base> cmd=.. <ops..> term:..` -/
+def handle (args : List String) : String :=
+  match args with
+  | baseTok :: cmdTok :: rest =>
+    match kvList baseTok, startOf cmdTok, rest.getLast?.bind termOf, allSome (rest.dropLast.map parseOp) with
+    | some base, some e0, some term, some opss =>
+      match applyAll base e0 opss.flatten with
+      | none => "panic-build"
+      | some e =>
+        match terminate e term with
+        | none => "panic-term"
+        | some e' =>
+          let envS := match childEnv e' with
+            | none => "inherit"
+            | some l => "[" ++ ",".intercalate (l.map hexB) ++ "]"
+          "ok argv=" ++ ",".intercalate ((argv e').map hexB) ++ " env=" ++ envS ++
+            " cwd=" ++ (match e'.cwd with | none => "-" | some d => "[" ++ hexB d ++ "]") ++
+            " in=" ++ showRd e'.sin ++ " out=" ++ showRd e'.sout ++ " err=" ++ showRd e'.serr ++
+            " det=" ++ (if e'.detached then "1" else "0") ++ " late=" ++ (if lateRefusal e' term then "1" else "0")
+    | _, _, _, _ => "bad-request"
+  | _ => "bad-request"
+end BuilderIO
+
 def handle (line : String) : String :=
   match tokens line with
   | "win" :: args => handleWin args
@@ -438,6 +516,7 @@ def handle (line : String) : String :=
   | "life" :: args => LifeIO.handle args
   | "comm" :: args => CommIO.handle args
   | "spawn" :: args => SpawnIO.handle args
+  | "builder" :: args => BuilderIO.handle args
   | _ => "bad-request"
 
 partial def loop (h : IO.FS.Stream) (out : IO.FS.Stream) : IO Unit := do
